@@ -306,9 +306,13 @@ func (fr *Frame) run(reach string, st *State) *exitInfo {
 			if same && first != "" {
 				pv = first
 			} else {
-				pv = vc.fresh(fr.name(phi), sortp)
-				for _, p := range pairs {
-					vc.emit("(assert " + sImp(p[0], sEq(pv, p[1])) + ")")
+				if vc.iteMerge() {
+					pv = vc.def(fr.name(phi), sortp, iteChain(pairs))
+				} else {
+					pv = vc.fresh(fr.name(phi), sortp)
+					for _, p := range pairs {
+						vc.emit("(assert " + sImp(p[0], sEq(pv, p[1])) + ")")
+					}
 				}
 			}
 			pre[phi] = pv
@@ -775,6 +779,16 @@ func (fr *Frame) step(in ssa.Instruction, st *State, reach string, back map[[2]i
 		esort := vc.sortOf(et)
 		vc.set(st, ev, vc.hsort[ev], fmt.Sprintf("(store %s %s ((as const (Array Int %s)) %s))", vc.look(st, ev), base, esort, zeroOf(esort)))
 		fr.vals[x] = vc.def(fr.name(x), "Slice", fmt.Sprintf("(mk_slice %s 0 %s %s)", base, l, c))
+		if isAggregate(et) {
+			// struct elements of a fresh array are zero (flat structs only)
+			if flds, flat := vc.flatFieldVars(et); flat {
+				fn := vc.eaddrFun(et)
+				for _, hv := range flds {
+					_, out := arraySorts(vc.hsort[hv])
+					vc.assume(reach, fmt.Sprintf("(forall ((i Int)) (! (= (select %s (%s %s i)) %s) :pattern ((%s %s i))))", vc.look(st, hv), fn, base, zeroOf(out), fn, base))
+				}
+			}
+		}
 		fr.noteAlloc(st, reach, l, x.Pos())
 	case *ssa.MakeMap:
 		r := vc.freshRef(st, reach, fr.name(x))
@@ -831,6 +845,9 @@ func (fr *Frame) step(in ssa.Instruction, st *State, reach string, back map[[2]i
 	case *ssa.If:
 		c := fr.val(x.Cond)
 		b := x.Block()
+		if c != "true" && c != "false" {
+			vc.conds = append(vc.conds, condRec{c, len(vc.lines)})
+		}
 		fr.succEdge(b, b.Succs[0], sAnd(reach, c), st, back)
 		fr.succEdge(b, b.Succs[1], sAnd(reach, sNot(c)), st, back)
 	case *ssa.SliceToArrayPointer:
